@@ -129,7 +129,7 @@ class Check:
 
     def coqc(self, vfile, extra_q=(), timeout=900, cwd=None):
         """Compile one .v file with -Q coq SV (+ extra (dir,name) pairs). Returns (ok, output)."""
-        cmd = ["coqc", "-Q", COQ, "SV"]
+        cmd = ["coqc", "-noglob", "-Q", COQ, "SV"]   # no .glob files: several MB per case file
         for d, n in extra_q:
             cmd += ["-Q", d, n]
         cmd.append(vfile)
